@@ -76,6 +76,14 @@ def detect_copy(sid, props):
             nv = re.findall(r'viol_runs=(\d+)', o)
             runs = re.findall(r'runs=(\d+)', o)
             res[p] = {'exit': rc, 'caught': rc == 1 and f'VIOLATION property={p}' in o, 'kinds': kinds, 'viol_runs': int(nv[0]) if nv else None, 'runs': int(runs[0]) if runs else None, 'on': 'scratch copy of /repo/src'}
+            m = re.search(r'VIOLATION property=%s replay=(\S+)' % p, o)
+            if m and p == sid[:3] and os.path.exists(m.group(1)):
+                shutil.copy(m.group(1), f'{dst}/replay.json')
+                # the minimised replay must reproduce on the patched copy and must NOT reproduce on the unchanged tree
+                rc1, o1 = sh(f'{PY} -m dsim.main --replay {dst}/replay.json --quiet', cwd=VERIF, env=env)
+                rc2, o2 = sh(f'./check --replay {dst}/replay.json --quiet', cwd=VERIF)
+                res[p]['replay_reproduces_with_change'] = rc1 == 1
+                res[p]['replay_quiet_on_unchanged_tree'] = rc2 == 0
             print(sid, 'vs', p, res[p], flush=True)
     finally:
         shutil.rmtree(tmp, ignore_errors=True)
